@@ -35,6 +35,29 @@ def ansatz_catalogue(tier: str):
                 out.append((f"GateFabric({n},{d},{pi})", lambda n=n, d=d, pi=pi: GateFabric(n, d, pi), {"N", "Sz"}))
     for n, f in ((4, 2), (6, 2)) + (((6, 4), (8, 2)) if big else ()):
         out.append((f"AllSinglesDoubles({n},{f})", lambda n=n, f=f: AllSinglesDoubles(n, f), {"N", "Sz"}))
+    # the anchored gadgets themselves ("particle-conserving … excitation circuit", "orbital rotation gate … conserves the
+    # number of particles"), driven through every form of ParameterOrLinearFunction their signature admits – the ansatz
+    # classes only ever pass a bare Parameter, so the linear-function branches are reachable only from here
+    from quri_parts.chem.utils.excitations import add_double_excitation_circuit, add_single_excitation_circuit
+    from quri_parts.chem.utils.orbital_rotation import add_orbital_rotation_gate
+    from quri_parts.circuit import CONST, LinearMappedParametricQuantumCircuit
+
+    def gadget(fn, n, idx, form):
+        def build():
+            c = LinearMappedParametricQuantumCircuit(n)
+            a, b = c.add_parameters("a", "b")
+            pf = {"param": a, "scaled": {a: 2.0}, "two": {a: 1.0, b: -1.0}, "offset": {a: 0.5, CONST: 2 * math.pi}}[form]
+            fn(c, idx, pf)
+            return c
+
+        return build
+
+    for form in ("param", "scaled", "two", "offset"):
+        out.append((f"gadget:single_excitation((0,1),{form})", gadget(add_single_excitation_circuit, 2, (0, 1), form), {"N"}))
+        out.append((f"gadget:single_excitation((0,2),{form})", gadget(add_single_excitation_circuit, 3, (0, 2), form), {"N", "Sz"}))
+        out.append((f"gadget:double_excitation((0,1,2,3),{form})", gadget(add_double_excitation_circuit, 4, (0, 1, 2, 3), form), {"N", "Sz"}))
+        out.append((f"gadget:double_excitation((2,1,0,3),{form})", gadget(add_double_excitation_circuit, 4, (2, 1, 0, 3), form), {"N", "Sz"}))
+        out.append((f"gadget:orbital_rotation((0,1,2,3),{form})", gadget(add_orbital_rotation_gate, 4, (0, 1, 2, 3), form), {"N", "Sz"}))
     try:
         from quri_parts.openfermion.ansatz import KUpCCGSD, TrotterUCCSD
 
